@@ -559,6 +559,7 @@ type driver struct {
 	objs   []*object
 	ops    []*opState
 	direct map[string]int
+	exec   *execution // executor level (exec_test.go), nil otherwise
 }
 
 func newDriver(tr *common.Trace, trace int, thrMs, maxSuspMs int64, epoch time.Time, label string) *driver {
@@ -580,6 +581,7 @@ func (d *driver) settle() {
 		recs = append(recs, o.observe())
 	}
 	d.tr.Emit(common.Ev{"ev": "obs", "objs": recs})
+	d.reportExec()
 }
 
 func (d *driver) setOwner(id int) {
